@@ -394,6 +394,8 @@ pub struct ASpace {
     pub outline: Vec<(f32, f32)>,
     pub x: f32,
     pub y: f32,
+    /// level of the space above its storey's level (raised room, split level); 0 for most spaces
+    pub z: f32,
     pub azimuth: f32,
     /// HEIGHT attribute written in the SPACE block (HULC writes the floor's; LIDER may omit it; it may also differ)
     pub height_attr: Option<f32>,
@@ -697,6 +699,7 @@ pub fn gen_building(rng: &mut Rng, cfg: &BuildCfg) -> ABuilding {
                 x: if j > 0 || turned { rng.dec(-40.0, 40.0, 2) as f32 } else { 0.0 },
                 y: if j > 0 || turned { rng.dec(-40.0, 40.0, 2) as f32 } else { 0.0 },
                 azimuth: if turned { *rng.pick(&[90.0f32, 180.0, 270.0, 45.0, 30.0, 123.0]) } else { 0.0 },
+                z: 0.0,
                 height_attr: if cfg.odd_space_height && rng.chance(0.2) { Some(r2(h as f64 - rng.dec(0.2, 0.8, 2))) } else if rng.chance(0.8) { Some(h) } else { None },
                 stype: stype.to_string(),
                 inside: if rng.chance(0.8) { Some(stype == "CONDITIONED" || rng.chance(0.3)) } else { None },
@@ -712,6 +715,9 @@ pub fn gen_building(rng: &mut Rng, cfg: &BuildCfg) -> ABuilding {
                 walls: vec![],
                 air_changes: if rng.chance(0.2) { Some(rng.dec(0.2, 2.0, 2) as f32) } else { None },
             };
+            if cfg.turned_spaces && rng.chance(0.12) {
+                sp.z = *rng.pick(&[0.5f32, 1.2, -0.4]);
+            }
             let nv = outline.len();
             for v in 0..nv {
                 let kind = rng.usize(10);
@@ -1000,6 +1006,9 @@ impl ABuilding {
                 }
                 if s.azimuth != 0.0 {
                     b = b.num("AZIMUTH", s.azimuth);
+                }
+                if s.z != 0.0 {
+                    b = b.num("Z", s.z);
                 }
                 b = b.w("SHAPE", "POLYGON").s("POLYGON", &format!("{}_Pol2", s.name)).w("TYPE", &s.stype).s("SPACE-TYPE", &s.spacetype).s("SYSTEM-CONDITIONS", &s.sysconds).s("SPACE-CONDITIONS", &s.conds).num("MULTIPLIER", s.multiplier).num("MULTIPLIED", 0.0);
                 if let Some(i) = s.inside {
